@@ -238,9 +238,15 @@ class CaptureSet:
         self.assign = []       # file index of every packet of self.packets
         self.regime = ""
 
+    def records(self):
+        """(packet, file index) in the order the records are written to the capture files.  Default = wire order;
+        regime "unsorted" gives packets an explicit record position "rpos" (records NOT in timestamp order inside a file)."""
+        idx = sorted(range(len(self.packets)), key=lambda i: self.packets[i].get("rpos", i))
+        return [(self.packets[i], self.assign[i]) for i in idx]
+
     def file_packets(self):
         out = [[] for _ in self.files]
-        for p, f in zip(self.packets, self.assign):
+        for p, f in self.records():
             out[f].append(p)
         return out
 
@@ -344,6 +350,8 @@ def cut_files(rng, cs, mode="contig", nfiles=None, cuts=None):
         remap = {f: i for i, f in enumerate(usedf)}
         cs.files = [names[f] for f in usedf]
         cs.assign = [remap[f] for f in cs.assign]
+    if cs.regime == "unsorted":
+        shuffle_records(rng, cs)
     return cs
 
 
@@ -365,7 +373,7 @@ def render_case(cs, runs):
     L = ["CASE " + cs.name]
     for f in cs.files:
         L.append("F " + f)
-    for p, f in zip(cs.packets, cs.assign):
+    for p, f in cs.records():
         d = p["data"].hex() or "-"
         if p["proto"] == "TCP":
             L.append("P %d %d %s %d %s %d T %s %d %d %s" % (f, p["ts"], p["src"], p["sport"], p["dst"], p["dport"], p["flags"], p["seq"], p["ack"], d))
@@ -441,7 +449,7 @@ def expected_streams(cs):
     """ground truth: one stream per conversation: (proto, client, server, runs, packet ids)"""
     fidx = {}
     cnt = [0] * len(cs.files)
-    for p, f in zip(cs.packets, cs.assign):
+    for p, f in cs.records():
         fidx[(p["cid"], p["seqno"])] = (f, cnt[f])
         cnt[f] += 1
     exp = []
@@ -662,7 +670,7 @@ def classify_c05(cs, visible):
 
 
 # ---------------------------------------------------------------- generation of the check's case list
-MAIN_REGIMES = ["plain", "dup", "reorder", "tiecut", "udp-only", "udp-collide", "udp-reuse", "tcp-only", "tcp-reuse-late", "mixed", "tiecut", "udp-bucket", "reorder", "udp-bucket"]
+MAIN_REGIMES = ["plain", "dup", "reorder", "tiecut", "udp-only", "udp-collide", "udp-reuse", "tcp-only", "tcp-reuse-late", "mixed", "tiecut", "udp-bucket", "reorder", "udp-bucket", "unsorted", "unsorted"]
 
 
 def gen_reuse(rng, name, early):
@@ -819,7 +827,44 @@ def gen_udp_bucket(rng, name):
     return cs
 
 
+def gen_unsorted(rng, name):
+    """capture files whose records are NOT in timestamp order (several capture threads, merged or re-written files): all
+    timestamps are made distinct, so the wire order (= ground truth) is the timestamp order whatever the record order is;
+    cut_files then permutes the records inside every file (rotation / reversal / shuffle: the first record is usually not
+    the earliest and the last not the latest).  PacketTimestampMin/Max must be the min/max over ALL records."""
+    cs = gen_capture_set(rng, name, rng.choice(["mixed", "mixed", "plain", "dup", "reorder", "tcp-only", "udp-collide"]))
+    last = -1
+    for p in cs.packets:
+        p["ts"] = max(p["ts"], last + 1)
+        last = p["ts"]
+    cs.regime = "unsorted"
+    return cs
+
+
+def shuffle_records(rng, cs):
+    pos = 0
+    for f in range(len(cs.files)):
+        idx = [i for i in range(len(cs.packets)) if cs.assign[i] == f]
+        n = len(idx)
+        mode = rng.choice(["rotate", "rotate", "reverse", "shuffle", "swap-ends"])
+        if n >= 2:
+            if mode == "rotate":
+                k = rng.randrange(1, n)
+                idx = idx[k:] + idx[:k]
+            elif mode == "reverse":
+                idx = idx[::-1]
+            elif mode == "shuffle":
+                rng.shuffle(idx)
+            else:
+                idx[0], idx[-1] = idx[-1], idx[0]
+        for i in idx:
+            cs.packets[i]["rpos"] = pos
+            pos += 1
+
+
 def gen_set(rng, name, regime):
+    if regime == "unsorted":
+        return gen_unsorted(rng, name)
     if regime == "udp-bucket":
         return gen_udp_bucket(rng, name)
     if regime == "tcp-reuse-early":
